@@ -24,13 +24,18 @@ pub enum Style {
 impl DocShape {
     pub fn expected(&self) -> String {
         let mut parts: Vec<String> = self.paras.iter().map(|p| p.join(" ")).collect();
-        parts.extend(self.tags.iter().cloned());
+        // inside a tag clause a line break is a continuation line (joined by one space); a
+        // leading line break stands for a blank line in front of the clause (no effect on the text)
+        parts.extend(self.tags.iter().map(|t| t.trim_start_matches('\n').replace('\n', " ")));
         parts.join("\n")
     }
     pub fn fits(&self, style: Style) -> bool {
         match style {
             Style::Compact | Style::OneLine => {
-                self.paras.len() <= 1 && self.paras.iter().all(|p| p.len() == 1) && (self.paras.len() + self.tags.len() >= 1 || style == Style::OneLine)
+                self.paras.len() <= 1
+                    && self.paras.iter().all(|p| p.len() == 1)
+                    && (self.paras.len() + self.tags.len() >= 1 || style == Style::OneLine)
+                    && self.tags.iter().all(|t| !t.contains('\n'))
             }
             _ => true,
         }
@@ -61,7 +66,12 @@ impl DocShape {
                     }
                 }
                 for t in &self.tags {
-                    s.push_str(&format!("{indent} * {t}{eol}"));
+                    if t.starts_with('\n') {
+                        s.push_str(&format!("{indent} *{eol}"));
+                    }
+                    for (k, l) in t.trim_start_matches('\n').split('\n').enumerate() {
+                        s.push_str(&format!("{indent} * {}{l}{eol}", if k > 0 { "  " } else { "" }));
+                    }
                 }
                 s.push_str(&format!("{indent} */"));
                 s
@@ -77,7 +87,12 @@ impl DocShape {
                     }
                 }
                 for t in &self.tags {
-                    s.push_str(&format!("{indent}   {t}{eol}"));
+                    if t.starts_with('\n') {
+                        s.push_str(eol);
+                    }
+                    for l in t.trim_start_matches('\n').split('\n') {
+                        s.push_str(&format!("{indent}   {l}{eol}"));
+                    }
                 }
                 s.push_str(&format!("{indent}*/"));
                 s
@@ -108,6 +123,8 @@ pub fn all_shapes() -> Vec<DocShape> {
         vec![],
         vec!["@param x Größe".to_string()],
         vec!["@param x é".to_string(), "@return 日本".to_string()],
+        // a blank line in front of the tags, clauses continued on further lines
+        vec!["\n@param x the door\nidentifier é".to_string(), "@return 日本\nw\nw".to_string()],
     ];
     let mut v = Vec::new();
     for f in &firsts {
@@ -139,8 +156,10 @@ pub fn representative_shapes() -> Vec<DocShape> {
     let all = all_shapes();
     vec![
         all[0].clone(),
-        all[9 + 4].clone(),
-        all[(5 * 9) + 8].clone(),
+        all[12 + 5].clone(),
+        all[(5 * 12) + 10].clone(),
+        // blank line before the tags, continued tag clauses
+        all[11].clone(),
         all[all.len() - 2].clone(),
         DocShape {
             paras: vec![vec!["Größe".into()]],
